@@ -112,11 +112,11 @@ class C14(Property):
     ]
     RULE = ("domain sequences over the full alphabet of the tree under test (every label of CLASSIFICATIONS, "
             "PKS_KS with trans-AT / iterative / other / stacked subtypes): (1) exhaustive strings over a "
-            "behavioural alphabet (one representative per class + every specially named label) up to length 3 "
-            "(quick) / 4 (thorough, deep), (2) random strings of length <= 30, uniform and grammar-shaped "
+            "behavioural alphabet (one representative per class + every specially named label) up to length 3, and "
+            "length 4 over that alphabet minus 5 behaviourally redundant labels (thorough, deep), (2) random strings of length <= 30, uniform and grammar-shaped "
             "(plausible modules with perturbations, double-transporter triples, docking domains), with shuffled "
             "input order and tied query starts; gene pairs on both strands (same / different) for combine_modules, "
-            "incl. exhaustive pairs of strings up to length 2x3 (thorough); 2-5 gene chains through the real "
+            "incl. a strided sample (60k) of all pairs of strings up to length 2x3 (thorough); 2-5 gene chains through the real "
             "generate_domains loop (regions, strands, empty genes, motif-only genes); arbitrary component "
             "sequences through Module.from_json; every label through classify and all Component predicates. "
             "non-trivial = at least two modules or one complete module (build/replay), a merge that happened or "
@@ -301,21 +301,29 @@ class C14(Property):
         scale = 10 if deep else 1
         # ---- exhaustive small scope
         beh = self.behavioural()
-        max_len = 4 if (deep and tier == "thorough") else 3 if deep else 2
         total = 0
-        for n in range(0, max_len + 1):
+        for n in range(0, 4):
             for combo in itertools.product(beh, repeat=n):
                 total += 1
                 doms = [[l, list(s), 10 * i + 1, 10 * i + 9] for i, (l, s) in enumerate(combo)]
                 yield {"kind": "build", "name": "g", "domains": doms}
+        # labels that behave like another one of the alphabet in build (same class, no special name in the
+        # state machine) are left out of the length-4 enumeration
+        redundant = {"TD", "Abhydrolase_1", "ACPS", "Condensation_Starter", "TIGR01720"}
+        reduced = [b for b in beh if b[0] not in redundant]
+        max_len = 3
         pair_total = 0
         if deep:
-            # all pairs of strings of length <= 2 x <= 3 over a reduced alphabet, both genes forward
-            small = [b for b in beh if b[0] not in ("TD", "Interface")][:14] if tier != "thorough" else beh
-            la, lb = (2, 2) if tier != "thorough" else (2, 3)
-            strings_a = [c for n in range(1, la + 1) for c in itertools.product(small, repeat=n)]
-            strings_b = [c for n in range(1, lb + 1) for c in itertools.product(small, repeat=n)]
-            budget = 250000 if tier == "thorough" else 40000
+            max_len = 4
+            for combo in itertools.product(reduced, repeat=4):
+                total += 1
+                doms = [[l, list(s), 10 * i + 1, 10 * i + 9] for i, (l, s) in enumerate(combo)]
+                yield {"kind": "build", "name": "g", "domains": doms}
+            # pairs of strings of length <= 2 x <= 3 over the reduced alphabet (+ Interface, a fused starter),
+            # both strands; thinned to a fixed budget by a fixed stride
+            strings_a = [c for n in range(1, 3) for c in itertools.product(reduced, repeat=n)]
+            strings_b = [c for n in range(1, 4) for c in itertools.product(reduced, repeat=n)]
+            budget = 60000
             step = max(1, (len(strings_a) * len(strings_b)) // budget)
             k = 0
             for a in strings_a:
@@ -331,8 +339,12 @@ class C14(Property):
                            "b": {"name": "b", "strand": strand, "domains":
                                  [[l, list(s), 10 * i + 1, 10 * i + 9] for i, (l, s) in enumerate(b)]}}
         self.exhaustive_done = True
-        self.extra_coverage = {"small_scope_alphabet": len(beh), "small_scope_max_len": max_len,
-                               "small_scope_build_cases": total, "small_scope_pair_cases": pair_total}
+        self.extra_coverage = {"small_scope_alphabet": len(beh), "small_scope_reduced_alphabet": len(reduced),
+                               "small_scope_max_len": max_len, "small_scope_build_cases": total,
+                               "small_scope_pair_cases": pair_total,
+                               "small_scope_note": "all strings of length <= 3 over the behavioural alphabet; in the "
+                                                   "deep/thorough tier also all strings of length 4 over the reduced "
+                                                   "alphabet and a strided sample of all pairs (<=2 x <=3)"}
 
         # ---- random
         for _ in range(3000 * scale):
